@@ -107,7 +107,7 @@ fn insert_type(items: &mut Vec<Item>, name: &str, kind: &str, k: usize) -> bool 
             impl #ident {
                 pub fn verif_get(&self) -> u8 { self.0 }
                 #[diplomat::attr(not(supports = "callbacks"), disable)]
-                pub fn verif_apply(&self, f: impl Fn(u32) -> u32) -> u32 { f(self.0 as u32) }
+                pub fn verif_apply(f: impl Fn(u32) -> u32, x: u32) -> u32 { f(x) }
             }
         })
     } else {
@@ -131,7 +131,17 @@ fn insert_type(items: &mut Vec<Item>, name: &str, kind: &str, k: usize) -> bool 
     if total == 0 {
         return false;
     }
-    let target = k % total;
+    // k >= 2000: the bridge module whose path sorts first; k >= 1000: the one whose path sorts last
+    // (backends walk types in path order, so "first" and "last" positions are worth aiming at)
+    let mut paths: Vec<String> = vec![];
+    collect_bridge_paths(items, String::new(), &mut paths);
+    let target = if k >= 1000 && !paths.is_empty() {
+        let want = if k >= 2000 { paths.iter().min().unwrap().clone() } else { paths.iter().max().unwrap().clone() };
+        paths.iter().position(|p| *p == want).unwrap()
+    } else {
+        k % total
+    };
+    let k = k % 1000;
     let mut done = false;
     for_each_bridge(items, &mut |m| {
         if !is_orig(m) {
@@ -156,6 +166,22 @@ fn insert_type(items: &mut Vec<Item>, name: &str, kind: &str, k: usize) -> bool 
     done
 }
 
+/// paths ("a::b::ffi") of the original bridge modules, in the order `for_each_bridge` visits them
+fn collect_bridge_paths(items: &[Item], prefix: String, out: &mut Vec<String>) {
+    for it in items {
+        if let Item::Mod(m) = it {
+            let p = if prefix.is_empty() { m.ident.to_string() } else { format!("{}::{}", prefix, m.ident) };
+            if is_bridge(&m.attrs) {
+                if !m.ident.to_string().contains("_verif_shadow_") {
+                    out.push(p);
+                }
+            } else if let Some((_, inner)) = &m.content {
+                collect_bridge_paths(inner, p, out);
+            }
+        }
+    }
+}
+
 fn remove_type(items: &mut Vec<Item>, name: &str) {
     for_each_bridge(items, &mut |m| {
         if let Some((_, inner)) = &mut m.content {
@@ -177,9 +203,15 @@ fn remove_type(items: &mut Vec<Item>, name: &str) {
 fn bridge_types(items: &mut Vec<Item>) -> Vec<(String, &'static str)> {
     let mut v = vec![];
     for_each_bridge(items, &mut |m| {
+        // only types of the original source: the choice must not depend on other verification edits
+        if m.ident.to_string().contains("_verif_shadow_") {
+            return;
+        }
         if let Some((_, inner)) = &m.content {
             for i in inner {
                 match i {
+                    Item::Struct(s) if s.ident.to_string().contains("VerifExtra") => {}
+                    Item::Enum(e) if e.ident.to_string().contains("VerifExtra") => {}
                     Item::Struct(s) => {
                         let opaque = s.attrs.iter().any(|a| a.path().segments.iter().map(|x| x.ident.to_string()).collect::<Vec<_>>() == ["diplomat", "opaque"]);
                         v.push((s.ident.to_string(), if opaque { "opaque" } else { "struct" }));
